@@ -37,7 +37,7 @@ func (m *Model) ListBookings(opts ...resource.ReadOption) []*traits.Booking {
 func (m *Model) CreateBooking(booking *traits.Booking) (*traits.Booking, error) {
 	msg, err := m.bookings.Add(booking.Id, booking, resource.WithGenIDIfAbsent(), resource.WithIDCallback(func(id string) {
 		booking.Id = id
-	}))
+	}), resource.WithMoreWritablePaths("id")) // (the id is the model's to write, whatever writable fields were configured)
 	if msg == nil {
 		return nil, err
 	}
